@@ -58,6 +58,24 @@ NEEDS = {
  "C19-w3-1": ("cleanupCharClassMatcher rebuilds UnicodeClasses by ranging over a set when there is a duplicate", "-optimize-grammar, a merged class with a duplicated \\p class and at least two distinct classes"),
  "C19-w3-2": ("removing a dead rule releases only one (map order) of the rules it referenced", "-optimize-grammar, a dead rule referencing at least two rules one of which is used by nothing else"),
  "C19-w3-3": ("the re-entry guard of Rule.NullableVisit returns the Nullable flag left by a previous build", "the same AST built more than once in one process, -support-left-recursion, a directly left-recursive rule nullable through a later alternative"),
+ "C05-w6-1": ("parseNotExpr restores the state only when (after negation) the predicate matched", "a ! predicate whose operand contains a state block and matches, directly under ? or * (nothing else restores)"),
+ "C05-w6-2": ("snapshot maps recycled through an unsynchronised package-level free list", "concurrent parses only: reported by C18 (data race under the simulated schedule), not by C05, whose runs are sequential"),
+ "C05-w6-3": ("restoreState restores in place and misses deleted keys", "a key that exists before, deleted inside a region that is then backtracked"),
+ "C11-w6-1": ("ParseReader's own read loop takes (0, error) for end of input", "a reader failing with zero bytes and a non-EOF error: outside what C11 states (code-block errors and panics; read errors of ParseReader belong to no claimed property)"),
+ "C11-w6-2": ("errList.err() sorts the errors by source offset", "two errors where the later-recorded one sits at a smaller offset"),
+ "C11-w6-3": ("Recover(false) re-panics with a normalised error instead of the original value", "Recover(false) and a block panicking with a non-error value"),
+ "C13-w6-1": ("exit statuses come from a table; the final write's key is mistyped", "a write error on the final write of the formatted parser"),
+ "C13-w6-2": ("skipping a byte order mark indexes past a short Peek", "a grammar that is exactly EF or EF BB"),
+ "C13-w6-3": ("the left-recursion diagnostic dereferences a reference it did not find under a recovery expression", "left recursion, no -support-left-recursion, the recursive reference under //{...}"),
+ "C16-w6-1": ("repetitions raise the budget error at the first iteration that consumed nothing", "a budget, a * or + whose body matches empty, and a loop that still ends because its body asks user code"),
+ "C16-w6-2": ("memo replay rewinds the expression counter", "Memoize(true), backtracking to a memoised prefix, a budget between the largest stretch and the total"),
+ "C16-w6-3": ("the budget is made relative to a pre-used Stats counter with an unchecked addition", "a reused Stats value and a budget within its count of 2^64"),
+ "C18-w6-1": ("memo tables recycled through a pool, emptied only on the normal path", "a memoising parse that ends by panic or budget exhaustion, then another memoising parse"),
+ "C18-w6-2": ("pooled error lists plus an early return in dedupe for fewer than two errors", "a call failing with exactly one error, kept unrendered, then another failing parse"),
+ "C18-w6-3": ("the error prefix is built in a package-level scratch buffer", "two overlapping parses that are both recording errors"),
+ "C19-w6-1": ("findLeader stops enumerating cycles once a start removes no candidate", "-support-left-recursion, an SCC of three rules with several cycles, the unlucky map order"),
+ "C19-w6-2": ("the static-code template is rendered in a goroutine that reads b.globalState while the rules are still being emitted", "-optimize-parser, a state block, and the schedule (task seam of the tool world)"),
+ "C19-w6-3": ("goimports runs in a goroutine under a 10 s time.After deadline", "the deadline passing before the goroutine is done (simulated clock of the task seam)"),
  "C05-w5-1": ("-optimize-parser drops the snapshot around action and predicate blocks", "-optimize-parser, a grammar with a state block, an action or predicate block writing to c.state"),
  "C05-w5-2": ("parseZeroOrOneExpr restores the state when the operand's value is nil", "a state block inside a ? operand that matches with a nil value (a bare state block, or an action returning nil)"),
  "C05-w5-3": ("cloneState copies the map shallowly until a Cloner has been seen, and looks for one only when the key count changes", "no Cloner via InitState, a state block replacing an existing non-Cloner value by a Cloner, later mutated in place inside something that fails"),
